@@ -386,7 +386,7 @@ func TypedValueToYANGType(tv *sdcpb.TypedValue, schemaObject *sdcpb.SchemaElem) 
 	case *sdcpb.TypedValue_BytesVal:
 		return tv, nil
 	case *sdcpb.TypedValue_DecimalVal:
-		return tv, nil
+		return normalizeDecimalTypedValue(tv), nil
 	case *sdcpb.TypedValue_FloatVal:
 		return tv, nil
 	case *sdcpb.TypedValue_DoubleVal:
@@ -428,7 +428,11 @@ func ConvertToTypedValue(schemaObject *sdcpb.SchemaElem, v string, ts uint64) (*
 		}
 		return nil, nil
 	}
-	return convertStringToTv(schemaType, v, ts)
+	tv, err := convertStringToTv(schemaType, v, ts)
+	if err != nil || tv == nil {
+		return tv, err
+	}
+	return normalizeDecimalTypedValue(tv), nil
 }
 
 func convertStringToTv(schemaType *sdcpb.SchemaLeafType, v string, ts uint64) (*sdcpb.TypedValue, error) {
@@ -709,6 +713,32 @@ func jsonScalarToString(v any) (string, error) {
 // convertScalarToYANGType converts a single value, given as typed value, in its lexical
 // representation (StringVal, AsciiVal) or as a JSON scalar, to the typed value of the given YANG type.
 func convertScalarToYANGType(lt *sdcpb.SchemaLeafType, tv *sdcpb.TypedValue) (*sdcpb.TypedValue, error) {
+	ctv, err := convertScalarToYANGTypeInternal(lt, tv)
+	if err != nil {
+		return nil, err
+	}
+	return normalizeDecimalTypedValue(ctv), nil
+}
+
+// normalizeDecimalTypedValue returns the one representation of the number a DecimalVal denotes
+// (no trailing zeros in the fraction: 1.50 is {15, 1}); stored values are compared bytewise.
+func normalizeDecimalTypedValue(tv *sdcpb.TypedValue) *sdcpb.TypedValue {
+	d := tv.GetDecimalVal()
+	if d == nil || d.GetPrecision() == 0 || d.GetDigits()%10 != 0 {
+		return tv
+	}
+	digits, precision := d.GetDigits(), d.GetPrecision()
+	for precision > 0 && digits%10 == 0 {
+		digits /= 10
+		precision--
+	}
+	return &sdcpb.TypedValue{
+		Timestamp: tv.GetTimestamp(),
+		Value:     &sdcpb.TypedValue_DecimalVal{DecimalVal: &sdcpb.Decimal64{Digits: digits, Precision: precision}},
+	}
+}
+
+func convertScalarToYANGTypeInternal(lt *sdcpb.SchemaLeafType, tv *sdcpb.TypedValue) (*sdcpb.TypedValue, error) {
 	var lex string
 	switch v := tv.GetValue().(type) {
 	case *sdcpb.TypedValue_StringVal:
